@@ -569,10 +569,16 @@ def logical(obs):
 
 
 def outcome_of(cmd):
+    first = None
     for l in cmd["lines"]:
         if l.startswith("out "):
-            return l
-    return None
+            # the watchdog appends `out <cmd> err=Hang` when the command (or the read accessors run after it) does
+            # not return in time: that line wins over an earlier `out ... ok`
+            if l.endswith("err=Hang"):
+                return l
+            if first is None:
+                first = l
+    return first
 
 
 def events_of(cmd):
